@@ -140,6 +140,8 @@ pub const DIRECTED: &[&str] = &[
     "package p; interface I { void f() =/*é*/4294967296; }",
     "package p;\r\n/**é*/ interface I {\r\n  void f(in Foo x);\r\n}\r\n",
     "package p; interface I { void f() = 4294967296\n; }",
+    "\u{feff}package p; interface I { const String S = \"€\"; void f(); }",
+    "\u{feff}\npackage p;\nenum E { A, B }\n",
 ];
 
 pub fn run(ctx: &Ctx) -> i32 {
